@@ -617,11 +617,23 @@ def run(ctx):
         for h in samples:
             ctx.sample({"history": h})
     ctx.sample({"history": [["connect", "ok"], ["success"], ["tick"], ["tick"]]})
+    # conformance of the dispatcher double: the real network layer over the real asyncore dispatcher and a scripted
+    # loopback peer must show the callback discipline the double implements (see vf/harness/netconf.py)
+    from vf.harness import netconf
+    conf_scripts = 0
+    if netconf.loopback_available():
+        scr = netconf.scripts(2 if ctx.quick else 3)
+        conf_scripts = len(scr)
+        for viol in ctx.pimap(netconf.run_one, [(sc_, "asyncore") for sc_ in scr]):
+            ctx.add_violations(viol)
+    else:
+        ctx.assume("loopback sockets unavailable: dispatcher conformance scripts skipped")
     ctx.coverage.update({
         "states": states,
         "transitions": transitions,
         "traces_validated_against_impl": transitions + len(jobs),
         "max_depth": maxd + 1,
+        "dispatcher_conformance_scripts": conf_scripts,
         "exhaustive": True,
         "bound": "all histories of <= %d events after the first connect over %d event kinds x reconnect option {on, off, default}" % (depth, len(EVENTS)),
         "explanation": "every transition rebuilds the real default stack and replays the history under the controlled scheduler "
@@ -633,6 +645,9 @@ def run(ctx):
 
 
 def replay(ctx, case):
+    if "dispatcher_script" in case:
+        from vf.harness import netconf
+        return netconf.run_one((tuple(case["dispatcher_script"]), case.get("dispatcher", "asyncore")))
     hist = [tuple(e) for e in case["history"]]
     s = build(hist, case.get("reconnect", True))
     try:
